@@ -351,4 +351,40 @@ theorem verify_full_any {env : Env} {cfg : Cfg} {host : Ledger} {nb v : List Blo
       rw [verifyLoop_skip env cfg now lastHost nb _ nl none 0 hl]
       exact h
 
+/-- **a prefix (of at least two blocks) of a chain acceptable from height 0 is acceptable from height 0** — what a
+    neighbour serves for `GetBlocks(0)` when its chain is longer than a page -/
+theorem verify_prefix_of_full {env : Env} {cfg : Cfg} (hI : 0 < cfg.interval) {host : Ledger} {xs ys : List Block}
+    {now : Int} (hlen : 2 ≤ xs.length)
+    (h : verify env cfg host [] (xs ++ ys) [] now = .ok (xs ++ ys)) :
+    verify env cfg host [] xs [] now = .ok xs := by
+  obtain ⟨_, nlC, fin, hloop, hprobe⟩ := verify_inv env cfg host [] _ [] _ now h
+  simp only [List.isEmpty_nil, if_true, List.getLast?_nil] at hloop
+  obtain ⟨nl1, h1, h2⟩ := verifyLoop_prefix_ok hloop
+  rw [SL.verify_eq]
+  have hdec : decide (xs.length < 2) = false := by
+    rw [decide_eq_false_iff_not]; omega
+  simp only [hdec, List.isEmpty_nil, Bool.not_true, Bool.false_and, Bool.and_false, Bool.false_eq_true, if_false, if_true,
+    List.getLast?_nil]
+  rw [h1]
+  simp only []
+  have hp : ∃ f, nl1.addBlock env (nl1.lastTs + cfg.interval) [] [] = .ok f := by
+    cases ys with
+    | nil =>
+      simp only [verifyLoop] at h2
+      injection h2 with h2
+      subst h2
+      exact ⟨fin, hprobe⟩
+    | cons r R' =>
+      obtain ⟨nl3, ha3, _⟩ := verifyLoop_cons_ok h2
+      unfold loopAppend at ha3
+      have : (0 + xs.length == 0) = false := by
+        rw [Nat.zero_add]
+        cases hx : xs.length with
+        | zero => omega
+        | succ m => rfl
+      rw [this] at ha3
+      exact addBlock_probe_of_raw hI ha3
+  obtain ⟨f, hf⟩ := hp
+  rw [hf]
+
 end Ru
